@@ -40,9 +40,10 @@ Qed.
 
 (* ---------------------------------------------------------------- get (read only) *)
 
-Lemma get_sim s k : forall fuel id n fp r, rep s id n fp -> get fuel n k = Ok r -> s_get fuel s id k = Ok r.
+Lemma get_sim s k : forall fuel fuel' id n fp r, (fuel <= fuel')%nat -> rep s id n fp -> get fuel n k = Ok r -> s_get fuel' s id k = Ok r.
 Proof.
-  induction fuel as [|f IH]; intros id n fp r Hr Hv; [discriminate|].
+  induction fuel as [|f IH]; intros fuel' id n fp r Hf Hr Hv; [discriminate|].
+  destruct fuel' as [|f']; [lia|].
   destruct n as [lf es ks]. cbn [get] in Hv. cbn [s_get].
   pose proof Hr as Hr0. apply rep_inv in Hr as (nn & fps & Hn & Hl & He & Hks & _).
   rewrite (sget_some _ _ _ Hn). cbn [bind]. rewrite He, Hl.
@@ -51,7 +52,7 @@ Proof.
   destruct (split_at i ks) as [((ka & ck) & kb)| |] eqn:Esp; cbn [bind] in Hv; try discriminate.
   apply split_at_inv in Esp as (-> & Hi).
   apply reps_mid in Hks as (ia & cid & ib & fa & fc & fb & -> & _ & _ & Hrc & _ & Lia & _).
-  rewrite <- Hi, <- Lia. rewrite split_at_app by reflexivity. cbn [bind]. eapply IH; eauto.
+  rewrite <- Hi, <- Lia. rewrite split_at_app by reflexivity. cbn [bind]. eapply (IH f'); eauto. lia.
 Qed.
 
 Section SIM4.
